@@ -200,6 +200,9 @@ def run(rep, tier):
             return
         from checks import rsutil
         rsutil.run_rs_part(rep, tier, "C17")
+        if not rep.violations:
+            from checks import fuzzutil
+            fuzzutil.run_fuzz_part(rep, tier, "C17")
     finally:
         for ln in links:
             ln.close()
@@ -231,6 +234,10 @@ def sweep(rep, G, cap, links, tier="thorough"):
 
 
 def replay(rep, case, body=None):
+    if isinstance(case, dict) and case.get("engine") == "E3":
+        from checks import fuzzutil
+        fuzzutil.replay_input(rep, "C17", case)
+        return
     G = drivers.load()
     links = (ag.NbLink(), ag.NbLink())
     c = {"cfg": gen.cfg_from_json(case["_cfg"]), "oids": [tuple(o) for o in case["oids"]], "target": case["target"], "dim": case["dim"]}
